@@ -1735,7 +1735,21 @@ func (s *Service) runPipeline(rp *runnablePipeline) error {
 	// unconditionally, including on error, so the cleanup goroutine (already
 	// blocked on it) is never left hanging.
 	err := s.pipelines.UpdateStatus(ctx, rp.pipeline.ID, pipeline.StatusRunning, "")
+	if err != nil {
+		// The run is live (workers released, entry published) but it could
+		// not be announced as running, and the caller is about to be told that
+		// the pipeline did not start. Nothing else would ever end this run:
+		// Stop refuses a pipeline that is not reported running. End it here.
+		// The cleanup goroutine tears the workers and the sink down, records
+		// the error and removes the entry. Fatal, so that it degrades instead
+		// of entering a recovery loop for a run that officially never started.
+		rp.t.Kill(cerrors.FatalError(err))
+	}
 	close(startupDone)
+	if err != nil {
+		// do not return before the connectors and processors are released
+		<-rp.t.Dead()
+	}
 	return err
 }
 
